@@ -404,7 +404,7 @@ fn interesting(it: &str) -> bool {
 }
 
 fn typed(src: &mut Src, st: &mut Stats, _env: &Env) -> CaseResult {
-    let it = match src.below(12) {
+    let it = match src.below(13) {
         9 => {
             if src.flip() {
                 check_value("typed", "Vec<u64>", &gen_run_u64(src), st)?
@@ -417,6 +417,18 @@ fn typed(src: &mut Src, st: &mut Stats, _env: &Env) -> CaseResult {
             let a = gen_run_u64(src);
             let pairs: Vec<(u64, f64, i64)> = a.iter().map(|x| (*x, *x as f64, *x as i64)).collect();
             check_value("typed", "Vec<(u64, f64, i64)>", &pairs, st)?
+        }
+        12 => {
+            // std types whose Serialize / Deserialize consult is_human_readable()
+            use std::net::{IpAddr, Ipv4Addr, Ipv6Addr, SocketAddr};
+            let ip4 = IpAddr::V4(Ipv4Addr::new(src.byte(), src.byte(), src.byte(), src.byte()));
+            let ip6 = IpAddr::V6(Ipv6Addr::new(src.u32() as u16, 0, 0, 0, 0, 0, src.byte() as u16, 1));
+            match src.below(4) {
+                0 => check_value("typed", "IpAddr", &ip4, st)?,
+                1 => check_value("typed", "IpAddr", &ip6, st)?,
+                2 => check_value("typed", "SocketAddr", &SocketAddr::new(ip4, src.u32() as u16), st)?,
+                _ => check_value("typed", "(Vec<IpAddr>, Option<SocketAddr>, std::time::Duration, std::path::PathBuf)", &(vec![ip4, ip6], Some(SocketAddr::new(ip6, 8080)), std::time::Duration::new(src.u32() as u64, src.u32() % 1_000_000_000), std::path::PathBuf::from(gen_string(src).replace('\u{0}', "0"))), st)?,
+            }
         }
         11 => {
             if src.flip() {
